@@ -102,9 +102,10 @@ theorem scanKey_neutral (acc : KeyAcc) (evs : List Ev) (h : evs.all neutral = tr
     rw [this]
     exact ih acc (by simpa using h.2)
 
-theorem pkDecide_again {cfg : Cfg} {st st' : St} {r : Req} {cand : Cached} {evs evs' : List Ev}
+theorem pkDecide_again' {cfg : Cfg} {st st' : St} {r : Req} {cand : Cached} {evs evs' : List Ev}
     (h : pkDecide cfg st r cand evs = .again st' evs') :
-    st' = st ∧ ∃ x, evs' = evs ++ x ∧ x.all neutral = true := by
+    st' = st ∧ evs' = evs ++ [Ev.sendPkOk r.pk.algo r.pk.key] ∧ r.pk.isQuery = true ∧
+      cand.result.okOrPartial = true := by
   unfold pkDecide at h
   cases hq : r.pk.isQuery <;> simp [hq] at h
   · cases h1 : r.pk.sigParses <;> simp [h1] at h
@@ -116,28 +117,42 @@ theorem pkDecide_again {cfg : Cfg} {st st' : St} {r : Req} {cand : Cached} {evs 
   · cases h1 : r.pk.trailing <;> simp [h1] at h
     cases h2 : cand.result.okOrPartial <;> simp [h2] at h
     obtain ⟨rfl, rfl⟩ := h
-    exact ⟨rfl, _, rfl, by simp [neutral]⟩
+    exact ⟨rfl, rfl, rfl, rfl⟩
 
-theorem pkDecide_res {cfg : Cfg} {st st' : St} {r : Req} {cand : Cached} {evs evs' : List Ev} {p : Nat} {e : AuthErr}
+theorem pkDecide_res' {cfg : Cfg} {st st' : St} {r : Req} {cand : Cached} {evs evs' : List Ev} {p : Nat} {e : AuthErr}
     (h : pkDecide cfg st r cand evs = .res st' evs' p e) :
-    st' = st ∧ ∃ x, evs' = evs ++ x ∧ x.all neutral = true := by
+    st' = st ∧ (evs' = evs ∨ (evs' = evs ++ [Ev.cbVpk st.user r.pk.key cand.perms r.pk.sigFormat r.vcb] ∧
+      cfg.verifiedCb = true ∧ r.pk.isQuery = false)) := by
   unfold pkDecide at h
   cases hq : r.pk.isQuery <;> simp [hq] at h
   · cases h1 : r.pk.sigParses <;> simp [h1] at h
     by_cases h2 : r.pk.algo ∈ algorithmsForKeyFormat r.pk.keyType <;> simp [h2] at h
-    case neg => obtain ⟨rfl, rfl, _⟩ := h; exact ⟨rfl, [], by simp, by simp⟩
+    case neg => obtain ⟨rfl, rfl, _⟩ := h; exact ⟨rfl, Or.inl rfl⟩
     by_cases h3 : r.pk.sigFormat ∈ cfg.algos <;> simp [h3] at h
-    case neg => obtain ⟨rfl, rfl, _⟩ := h; exact ⟨rfl, [], by simp, by simp⟩
+    case neg => obtain ⟨rfl, rfl, _⟩ := h; exact ⟨rfl, Or.inl rfl⟩
     cases h4 : isAlgoCompatible r.pk.algo r.pk.sigFormat <;> simp [h4] at h
-    case false => obtain ⟨rfl, rfl, _⟩ := h; exact ⟨rfl, [], by simp, by simp⟩
+    case false => obtain ⟨rfl, rfl, _⟩ := h; exact ⟨rfl, Or.inl rfl⟩
     cases h5 : sigOk cfg r.pk cand.perms <;> simp [h5] at h
     split at h <;> simp at h
-    · obtain ⟨rfl, rfl, _⟩ := h; exact ⟨rfl, _, rfl, by simp [neutral]⟩
-    · obtain ⟨rfl, rfl, _⟩ := h; exact ⟨rfl, [], by simp, by simp⟩
+    · rename_i hc
+      obtain ⟨rfl, rfl, _⟩ := h; exact ⟨rfl, Or.inr ⟨rfl, by simp_all, rfl⟩⟩
+    · obtain ⟨rfl, rfl, _⟩ := h; exact ⟨rfl, Or.inl rfl⟩
   · cases h1 : r.pk.trailing <;> simp [h1] at h
     cases h2 : cand.result.okOrPartial <;> simp [h2] at h
-    obtain ⟨rfl, rfl, _⟩ := h; exact ⟨rfl, [], by simp, by simp⟩
+    obtain ⟨rfl, rfl, _⟩ := h; exact ⟨rfl, Or.inl rfl⟩
 
+theorem pkDecide_again {cfg : Cfg} {st st' : St} {r : Req} {cand : Cached} {evs evs' : List Ev}
+    (h : pkDecide cfg st r cand evs = .again st' evs') :
+    st' = st ∧ ∃ x, evs' = evs ++ x ∧ x.all neutral = true := by
+  obtain ⟨a, b, _⟩ := pkDecide_again' h
+  exact ⟨a, _, b, by simp [neutral]⟩
+
+theorem pkDecide_res {cfg : Cfg} {st st' : St} {r : Req} {cand : Cached} {evs evs' : List Ev} {p : Nat} {e : AuthErr}
+    (h : pkDecide cfg st r cand evs = .res st' evs' p e) :
+    st' = st ∧ ∃ x, evs' = evs ++ x ∧ x.all neutral = true := by
+  obtain ⟨a, b | ⟨b, _⟩⟩ := pkDecide_res' h
+  · exact ⟨a, [], by simp [b], by simp⟩
+  · exact ⟨a, _, b, by simp [neutral]⟩
 
 theorem pk_core {cfg : Cfg} {st st' : St} {r : Req} {acc : KeyAcc} {evs : List Ev}
     (hinv : CacheInv cfg st acc)
@@ -280,5 +295,62 @@ theorem steps_inv {cfg : Cfg} {st st' : St} {rs : List Req} {acc : KeyAcc} {evs 
 theorem init_inv (cfg : Cfg) : CacheInv cfg (St.init cfg) none := by
   intro c hc
   simp [St.init] at hc
+
+/-- on the request that succeeds with publickey, the log up to and including that request ends
+    (as far as PublicKeyCallback invocations and partial successes go) with the PublicKeyCallback
+    invocation of the callback set in force, for this user and these key bytes, returning accept -/
+theorem step_ok_pk {cfg : Cfg} {st : St} {r : Req} {acc : KeyAcc} {evs : List Ev} {p : Nat}
+    (hinv : CacheInv cfg st acc) (h : step cfg (bump st) r = .done evs (.ok p))
+    (hm : r.method = "publickey") :
+    ∃ pkPerms, scanKey acc evs = some (st.gen, r.user, r.pk.key, .accept pkPerms) ∧
+      cfg.saOk pkPerms = true ∧ sigOk cfg r.pk pkPerms = true ∧
+      ((cfg.verifiedCb = true ∧ r.vcb = .accept p) ∨ (cfg.verifiedCb = false ∧ p = pkPerms)) := by
+  unfold step at h
+  split at h
+  · simp at h
+  split at h
+  · simp at h
+  simp only [] at h
+  generalize hsb : bannerPhase cfg { bump st with user := r.user } = sb at h
+  have hf := bannerPhase_fields cfg { bump st with user := r.user }
+  have hn := bannerPhase_neutral cfg { bump st with user := r.user }
+  rw [hsb] at hf hn
+  have hinv1 : CacheInv cfg sb.1 acc := by
+    apply CacheInv_congr _ _ hinv <;> rw [hf] <;> rfl
+  have hgen : sb.1.gen = st.gen := by rw [hf]; rfl
+  have huser : sb.1.user = r.user := by rw [hf]
+  split at h
+  · simp at h
+  · simp at h
+  · rename_i st2 evs2 perms e hph
+    cases hfin : finish cfg st2 r evs2 perms e with
+    | cont st3 evs3 => simp [hfin] at h
+    | done evs3 f =>
+    simp [hfin] at h
+    obtain ⟨rfl, rfl⟩ := h
+    obtain ⟨rfl, rfl, _, rfl⟩ := finish_ok hfin
+    -- the method switch took the publickey branch
+    have hpk : pkPhase cfg sb.1 r = .res st2 evs2 perms .ok := by
+      unfold methodPhase at hph
+      simp [hm] at hph
+      exact hph
+    have hcore := pk_core hinv1 (Or.inr ⟨perms, .ok, hpk⟩)
+    unfold pkPhase at hpk
+    split at hpk
+    · rename_i ph hp
+      rcases pkPre_some hp with h1 | h1 <;> simp [h1] at hpk
+    · split at hpk
+      · simp at hpk
+      · rename_i cand st3 evs4 hl
+        obtain ⟨l1, l2, l3, _⟩ := pkLookup_some hl
+        obtain ⟨rfl, _, _, _, _, _, d7, d8, d9⟩ := pkDecide_ok hpk
+        obtain ⟨out, ho, hacc⟩ := hcore.1 cand l3
+        obtain ⟨rfl, hsa⟩ := hacc d8
+        refine ⟨cand.perms, ?_, hsa, d7, ?_⟩
+        · rw [scanKey_append, scanKey_neutral _ _ hn, scanKey_append, scanKey_neutral _ [_, _] (by simp [neutral]),
+            ho, hcore.2, hgen, l1, l2, huser]
+        · rcases d9 with ⟨a, b, _⟩ | ⟨a, b, _⟩
+          · exact Or.inl ⟨a, b⟩
+          · exact Or.inr ⟨a, b⟩
 
 end XC.C32
